@@ -100,30 +100,31 @@ fn gen_tlb(rng: &mut Rng, pcid: u64, addr: u64) -> Vec<Value> {
     out
 }
 
-fn gen_new(rng: &mut Rng) -> Value {
-    let max = match rng.below(10) {
-        0 => 0,
-        1 => 1,
-        2 => 2,
-        3 => 7,
-        4 => 65535,
-        5 => 1 << rng.below(16),
-        6 => rng.below(64),
-        _ => rng.below(65536),
-    };
-    let nasid = match rng.below(8) {
-        0 => 0,
-        1 => 1,
-        2 => 2,
-        3 => 0x8000,
-        4 => 65535,
-        5 => 65536,
-        6 => rng.next() & 0xffff_ffff,
-        _ => rng.below(65536),
-    };
+/// The simulated processor (what CPUID reports about INVLPGB).  It is a property of the *process*:
+/// CPUID answers do not change while a program runs, and an implementation may rely on that (cache
+/// the decoded limits), so all runs a worker executes in one process see the same processor.  The
+/// identity is derived from the seed block, the worker's residue class (seeds of one worker are
+/// congruent mod 16) and the flavour's seed offset; the sixteen release workers cover the special
+/// maxima in every check, the others draw theirs.
+fn gen_cpu(seed: u64) -> (bool, u64, bool, u64) {
+    // the seeds of one worker are congruent mod 16; the debug flavour explores its own block of
+    // seeds from offset 500_000_000 on.  Nothing else enters the identity, so it cannot change
+    // while a worker walks through its seeds, whatever the tier and the seed block.
+    let k = (seed % 16) as usize;
+    let dbg = seed % 1_000_000_000 >= 500_000_000;
+    const MAX_RELEASE: [u64; 16] = [0, 1, 2, 3, 7, 8, 16, 63, 64, 255, 256, 4095, 32768, 65534, 65535, 100];
+    const MAX_DBG: [u64; 16] = [5, 31, 32, 33, 127, 128, 1000, 1023, 1024, 8191, 8192, 16384, 40000, 65533, 9, 300];
+    const NASID: [u64; 16] = [0, 1, 2, 0x8000, 65535, 65536, 0x1_0000_0000 - 1, 16, 255, 256, 4096, 12345, 3, 0x7fff, 0x12_3456, 40000];
+    let max = if dbg { MAX_DBG[k] } else { MAX_RELEASE[k] };
+    let nasid = NASID[(k + if dbg { 5 } else { 0 }) % 16];
+    let supported = !(dbg && k == 15);
+    (supported, max, (k + dbg as usize) % 2 == 0, nasid)
+}
+
+fn gen_new(rng: &mut Rng, cpu: (bool, u64, bool, u64)) -> Value {
     // ring 0 selectors mostly; a selector with RPL != 0 is the documented panic
     let cs = if rng.chance(4) { *rng.pick(&[0x33u64, 0x1b, 0x9, 0xa, 0x23]) } else { *rng.pick(&[0x8u64, 0x8, 0x8, 0x10, 0x38, 0xfff8]) };
-    json!({"op": "new", "cs": cs, "invlpgb": !rng.chance(8), "max": max, "nested": rng.chance(50), "nasid": nasid})
+    json!({"op": "new", "cs": cs, "invlpgb": cpu.0, "max": cpu.1, "nested": cpu.2, "nasid": cpu.3})
 }
 
 fn gen_bcast(rng: &mut Rng, max: u64, nasid: u64) -> Value {
@@ -191,6 +192,7 @@ fn gen_bcast(rng: &mut Rng, max: u64, nasid: u64) -> Value {
 
 pub fn gen(seed: u64) -> Replay {
     let mut rng = Rng::new(seed ^ 0xc11);
+    let cpu = gen_cpu(seed);
     let n = rng.range(2, 14);
     let mut steps = vec![];
     let mut cur: Option<(u64, u64)> = None;
@@ -198,7 +200,7 @@ pub fn gen(seed: u64) -> Replay {
         let k = if cur.is_none() { rng.weighted(&[3, 4, 4, 0, 0, 2]) } else { rng.weighted(&[1, 2, 2, 8, 1, 1]) };
         match k {
             0 => {
-                let s = gen_new(&mut rng);
+                let s = gen_new(&mut rng, cpu);
                 let ok = s["invlpgb"] == json!(true) && s["cs"].as_u64().unwrap() & 3 == 0;
                 cur = if ok { Some((s["max"].as_u64().unwrap(), s["nasid"].as_u64().unwrap())) } else { None };
                 steps.push(s);
@@ -570,7 +572,7 @@ pub fn run(rp: &Replay, st: &mut Stats) -> Option<Violation> {
                 w.cpu.sel[1] = cs;
                 w.cpu.cpuid = CpuidParams { invlpgb: has, invlpgb_max: max as u16, nested, nasid: nasid as u32 };
                 w.cpuid_intercept = true;
-                w.mon_budget = 600;
+                w.mon_budget = 2_500;
                 let r = sut_call("Invlpgb::new", || monitor(Invlpgb::new));
                 st.calls += 1;
                 // a panic unwinds past the monitor's exit point: leave monitor mode by hand
@@ -593,7 +595,7 @@ pub fn run(rp: &Replay, st: &mut Stats) -> Option<Violation> {
                     }
                     Ok(got) => {
                         if overrun {
-                            return Some(viol(P, "no-progress", i, "Invlpgb::new() did not finish within 600 single-stepped instructions".into()));
+                            return Some(viol(P, "no-progress", i, "Invlpgb::new() did not finish within 2500 single-stepped instructions".into()));
                         }
                         if cs & 3 != 0 {
                             return Some(viol(P, "new-cpl-check", i, format!("Invlpgb::new() returned although CS = {cs:#x} (CPL {}); the documentation promises a panic", cs & 3)));
